@@ -290,7 +290,7 @@ func (eng *Engine) solve(body string, o *Obligation, cfg *SolverCfg) {
 				if r.status == "sat" {
 					o.output = r.out
 					o.smt = smallFile
-					fmt.Fprintf(&log, "[z3-new %0.2fs] sat with inputs of length <= 40\n", r.secs)
+					fmt.Fprintf(&log, "[z3-new %0.2fs] sat with inputs of length <= 128\n", r.secs)
 				} else {
 					os.Remove(smallFile)
 				}
